@@ -321,6 +321,9 @@ func (vc *VC) header() string {
 	if len(sentinels[vc]) > 0 {
 		for _, s := range sentinels[vc] {
 			fmt.Fprintf(&sb, "(assert (> %s 0))\n", s)
+			if _, ok := vc.db.Sigs["is_io_error"]; ok {
+				fmt.Fprintf(&sb, "(assert (not (is_io_error %s)))\n", s)
+			}
 		}
 	}
 	return sb.String()
